@@ -195,6 +195,7 @@ struct WorldOptions {
    bool routes = false;              // C04/C13: spelling -> constant routes (label default, built-in by name, decltype(nullptr))
    bool track_identifiers = false;   // C04: one Identifier per spelling
    int owner = 0;                    // heap sub-arena
+   bool retry_after_fault = true;    // after an injected bad_alloc the client usually asks for the same thing again
 };
 
 struct Builtins {
@@ -215,6 +216,8 @@ struct World {
    uint64_t faults_configured = 0, faults_fired = 0;
    uint64_t observations = 0;          // counts observations; decides the order in which each one reads sequences
    const void* touching = nullptr;     // container the current op mutates (tainted if the op is cut short)
+   std::map<const void*, int> taint_count;   // failed insertions per tainted container (each may or may not have taken effect)
+   uint64_t retries = 0;                 // operations repeated right after an injected failure
    std::set<const void*> tainted;      // containers whose model conformance is no longer asserted (after an injected failure)
    Verdict verdict;                 // first violation recorded while applying operations
    std::string prop;                // property id used as prefix of violation classes
@@ -355,6 +358,7 @@ struct World {
    Verdict check_derived();                                  // C15: derived operations the observer cannot phrase as a reading
    // Scope / overload / decl-set oracle (C07), region oracle (C12), typing table (C09), derived ops (C15) ...
    Verdict check_scope(const ScopeModel&);
+   Verdict check_tainted_scope(const ScopeModel&);
    Verdict check_all_scopes();
    Verdict check_homogeneous(const HomoModel&);
    Verdict check_regions();
